@@ -570,3 +570,57 @@ fn mint_burn_case(mint: bool) {
 }
 mh!(c27_mint, { mint_burn_case(true) });
 mh!(c27_burn, { mint_burn_case(false) });
+
+// --- CSIZ: the size of a contract's code is revealed only for listed contracts ----------------------
+fn csiz_case(listed: bool) {
+    let mut st = SlotStorage::new();
+    let exists: bool = kani::any();
+    let code: [u8; 3] = kani::any();
+    if exists { st.code[0] = Some((DST, code.to_vec())); }
+    st.code[1] = Some((OTHER, alloc::vec![1u8, 2, 3, 4, 5]));
+    let mut gas = any_gas_costs();
+    let (base, per_unit): (Word, Word) = (kani::any(), kani::any());
+    gas.csiz = DependentCost::HeavyOperation { base, gas_per_unit: per_unit };
+    let mut regs = any_registers();
+    assume_reg_inv(&regs);
+    kani::assume(regs[R_HP] == VM_MAX_RAM && regs[R_SP] <= LS as Word);
+    let ra: usize = kani::any();
+    kani::assume(ra < 64 && ra != 0x11);
+    regs[0x11] = 64; // contract id (= DST) in memory
+    let probe: usize = kani::any();
+    kani::assume(probe < 64);
+    let mut vm = mk_vm_with(regs, tr_memory(&SRC, &DST), gas, st);
+    if listed { vm.input_contracts.insert(DST); }
+    vm.input_contracts.insert(OTHER);
+    let res = op::CSIZ::new(rid(ra), rid(0x11)).execute(&mut vm);
+    if let Some(mut exp) = charge(&regs, &vm.registers, &res, base, probe) {
+        if ra < VM_REGISTER_SYSTEM_COUNT {
+            assert!(matches!(res, Err(RuntimeError::Recoverable(PanicReason::ReservedRegisterNotWritable))));
+            assert!(vm.registers[probe] == exp[probe]);
+        } else if !listed {
+            assert!(matches!(res, Err(RuntimeError::Recoverable(PanicReason::ContractNotInInputs))));
+            assert!(matches!(vm.panic_context, PanicContext::ContractId(c) if c == DST));
+            assert!(vm.registers[probe] == exp[probe], "nothing about an unlisted contract is revealed");
+            kani::cover!(true, "unlisted contract refused");
+        } else if !exists {
+            assert!(matches!(res, Err(RuntimeError::Recoverable(PanicReason::ContractNotFound))));
+            assert!(vm.registers[probe] == exp[probe]);
+            kani::cover!(true, "missing contract");
+        } else {
+            let extra = 3u64.saturating_mul(per_unit);
+            if extra > exp[R_CGAS] {
+                assert!(matches!(res, Err(RuntimeError::Recoverable(PanicReason::OutOfGas))));
+            } else {
+                assert!(matches!(res, Ok(ExecuteState::Proceed)));
+                exp[R_CGAS] -= extra; exp[R_GGAS] -= extra;
+                exp[ra] = 3;
+                exp[R_PC] = regs[R_PC] + 4;
+                assert!(vm.registers[probe] == exp[probe]);
+                kani::cover!(true, "code size returned");
+            }
+        }
+    }
+    core::mem::forget(vm);
+}
+ah!(c30_csiz_listed, { csiz_case(true) });
+ah!(c30_csiz_unlisted, { csiz_case(false) });
